@@ -66,6 +66,15 @@ Section Extract.
          (save (x_entries st) (N.of_nat (length (x_out st))))
          (x_count st) (x_counts st).
 
+  (* the output location before and after: (content of the .p1log, content of its .p1i), None = absent.
+     open(output_path, 'wb') truncates whatever was there, os.remove deletes it when nothing was found;
+     FileIndex.save replaces the .p1i only when it writes one (save_index=True and at least one message). *)
+  Definition location := (option (list N) * option (list N))%type.
+  Definition extract_over (save_index : bool) (prior : location) (d : list N) : location * N :=
+    let r := extract d in
+    ((xr_output r, if save_index then match xr_index r with Some b => Some b | None => snd prior end else snd prior),
+     xr_count r).
+
   (* SPEC: the property text *)
   Definition spec_output (d : list N) : list N := concat (map snd (file_frames d)).
   Definition spec_count (d : list N) : N := N.of_nat (length (file_frames d)).
